@@ -283,6 +283,20 @@ fn families_of(prop: &str, tier: Tier) -> Vec<Cfg> {
             g2.dev = 1;
             v.push(g);
             v.push(g2);
+            // the transport fails in the middle of a packet with an error of any kind (a "write zero" kind among them),
+            // then whatever the application calls next
+            let mut ek = Cfg::base("C01-any-kind-of-transport-error-inside-a-packet");
+            ek.props = vec!["C01"];
+            ek.ops = vec![OpK::Pub0, OpK::Pub1, OpK::Sub, OpK::Poll, OpK::Disconnect];
+            ek.io = IoMenu::partial();
+            ek.io.write_err = true;
+            ek.io.err_keeps_open = true;
+            ek.fault_kinds = 18;
+            ek.max_ops = if q { 4 } else { 5 };
+            ek.max_conns = 1;
+            ek.max_reqs = 3;
+            ek.dev = 2;
+            v.push(ek);
             // credentials in their unusual legal forms: user name with a zero-length password, with and without a will
             for (name, will) in [("C01-connect-with-user-name-and-empty-password", false), ("C01-connect-with-empty-password-and-will", true)] {
                 let mut h = Cfg::base(name);
@@ -560,6 +574,9 @@ fn families_of(prop: &str, tier: Tier) -> Vec<Cfg> {
             c.broker.script_burst = true;
             c.broker.fifo = true;
             c.broker.reorder_window = 1;
+            // (the broker's own Receive Maximum - the window for the CLIENT's publishes - says nothing about how many
+            // inbound exchanges the client has to accept: that is the Receive Maximum the client advertised)
+            c.broker.receive_max = vec![None, Some(1), Some(2)];
             c.rx = 512;
             c.max_ops = if q { 12 } else { 14 };
             c.max_conns = 2;
@@ -768,6 +785,19 @@ fn families_of(prop: &str, tier: Tier) -> Vec<Cfg> {
             mq.max_reqs = if q { 3 } else { 4 };
             mq.dev = 0;
             v.push(mq);
+            // a transport whose write answers Ok(0) (the crate reports it and keeps the connection): the publish stays
+            // queued and keeps its slot
+            let mut wz = Cfg::base("C06-window-when-a-write-accepts-nothing");
+            wz.props = vec!["C06"];
+            wz.ops = vec![OpK::Pub1, OpK::Pub2, OpK::Poll];
+            wz.io = IoMenu::benign();
+            wz.io.write_zero = true;
+            wz.broker.receive_max = vec![Some(1), Some(2)];
+            wz.max_ops = if q { 6 } else { 7 };
+            wz.max_conns = 1;
+            wz.max_reqs = if q { 3 } else { 4 };
+            wz.dev = 2;
+            v.push(wz);
             // local limit: Receive Maximum above / at the local window of 8
             let mut b = Cfg::base("C06-receive-maximum-9-and-65535");
             b.must_reach = vec!["eight publishes unresolved at the broker", "publish refused because the send window is full"];
@@ -968,6 +998,7 @@ fn families_of(prop: &str, tier: Tier) -> Vec<Cfg> {
             let mut e = a.clone();
             e.family = "C11-every-kind-of-transport-error-then-every-call";
             e.fault_kinds = 18;
+            e.io.err_keeps_open = true;
             e.broker.garbage = false;
             e.max_ops = if q { 4 } else { 5 };
             e.max_reqs = 3;
@@ -1175,6 +1206,32 @@ fn families_of(prop: &str, tier: Tier) -> Vec<Cfg> {
             f.max_conns = 1;
             f.max_reqs = 0;
             f.dev = if q { 2 } else { 3 };
+            // a poll() dropped in the middle of an inbound packet, then a disconnect (plain or with properties) dropped
+            // before any of it was written, then the connection is driven on: the inbound packet must arrive intact
+            let mut h = Cfg::base("C13-cancelled-disconnect-with-an-inbound-packet-half-read");
+            h.props = vec!["C13"];
+            h.twin = Some(Twin::Cancel);
+            h.drain_script = true;
+            h.prune = false;
+            h.cancel = true;
+            h.cancel_connect = false;
+            h.big_connect = true;
+            h.rx = 512;
+            h.tx = 512;
+            h.disconnect_dropped_unwritten = true;
+            h.ops = vec![OpK::Poll, OpK::Disconnect];
+            h.io = IoMenu::benign();
+            h.io.read_pending = true;
+            h.io.read_partial = true;
+            h.io.all_partials_upto = 2;
+            h.io.write_pending = true;
+            h.broker.script = vec![inpub_big(1, 11)];
+            h.broker.reorder_window = 1;
+            h.broker.fifo = true;
+            h.max_ops = 4;
+            h.max_conns = 1;
+            h.max_reqs = 0;
+            h.dev = 3;
             // cancellation at every await point of the keep-alive traffic; the broker never answers, the
             // application polls on until the handle is dead
             let mut g = Cfg::base("C13-cancel-during-keepalive-traffic");
@@ -1199,7 +1256,7 @@ fn families_of(prop: &str, tier: Tier) -> Vec<Cfg> {
             g.max_conns = 1;
             g.max_reqs = 1;
             g.dev = 2;
-            vec![a, b, c, d, e, f, g]
+            vec![a, b, c, d, e, f, g, h]
         }
         "C15" => {
             let mut a = Cfg::base("C15-partial-and-pending-transport-answers");
